@@ -35,6 +35,8 @@ Record ccase := mkcase {
   c_steps : nat;                                (* > 0: pregel graph that may have cycles, run with this step limit *)
   c_graph : graph;                              (* [] = outside the order-side models (batch + branches) *)
   c_brs : list br;                              (* branches (eager mode only: Model/EagerSkip.v) *)
+  c_ctl : list (nid * nid);                     (* control-only edges (target, source): WorkflowNode.AddDependency *)
+  c_dat : list (nid * nid);                     (* data-only edges (target, source): WithNoDirectDependency *)
   c_obs : list (robs * exec_log);
   c_traces : list trun;
 }.
@@ -68,9 +70,23 @@ Definition predict (c : ccase) : outcome * exec_log :=
 (* a node that fails and does not feed END: the only graphs on which the outcome of an eager run
    depends on the schedule (Props/C03.v: eager_confluent, eager_outcome_schedule_dependent_refuted;
    known finding F-C03c) *)
-Definition has_fail_nonanc (g : graph) : bool :=
-  let a := ancestors g in
-  existsb (fun n => negb (N.eqb (n_fail n) 0) && negb (nmem (n_id n) a)) g.
+(* the nodes that feed END or decide whether a node that feeds END runs: ancestors over the edges of every
+   kind and the branches (a graph without branches and special edges: [ancestors g]) *)
+Definition anc_graph (G : sgraph) : graph :=
+  map (fun n => mkn (n_id n) (cpreds G n ++ dpreds G n) (n_fail n)) (sg_nodes G).
+Definition anc_of (G : sgraph) : list nid := ancestors (anc_graph G).
+Definition feeding_a (a : list nid) (l : exec_log) : exec_log := filter (fun x => nmem (fst x) a) l.
+
+Definition has_fail_nonanc (G : sgraph) : bool :=
+  let a := anc_of G in
+  existsb (fun n => negb (N.eqb (n_fail n) 0) && negb (nmem (n_id n) a)) (sg_nodes G).
+
+(* a node whose state pre-handler fails and that does not feed END: the run fails the moment the node
+   becomes ready; no fixed schedule then delivers the value whenever some schedule does
+   (Props/C03.v: eager_ok_complete carries prefail_feed_end; eager_prefail_schedule_dependent) *)
+Definition has_prefail_nonanc (G : sgraph) : bool :=
+  let a := anc_of G in
+  existsb (fun n => N.eqb (n_fail n) 4 && negb (nmem (n_id n) a)) (sg_nodes G).
 
 Definition is_batch (c : ccase) : bool := N.eqb (c_mode c) 0 || N.eqb (c_mode c) 1.
 
@@ -80,27 +96,31 @@ Definition is_batch (c : ccase) : bool := N.eqb (c_mode c) 0 || N.eqb (c_mode c)
    that does not feed END (then value and error are both possible, F-C03c).  Which executions had
    started when a failure was collected is timing: not compared. *)
 (* the eager model of a case: Model/Confluence.v without branches, Model/EagerSkip.v with *)
-Definition eager_model (g : graph) (brs : list br) (pick : list (node * val) -> nat) : outcome * exec_log * list nid :=
-  match brs with
-  | [] => eager pick g (fuel_of g)
-  | _ => seager true pick (mksg g brs) (fuel_of g)
-  end.
+Definition plain (G : sgraph) : bool := is_nil (sg_brs G) && is_nil (sg_ctl G) && is_nil (sg_dat G).
+Definition eager_model (G : sgraph) (pick : list (node * val) -> nat) : outcome * exec_log * list nid :=
+  if plain G then eager pick (sg_nodes G) (fuel_of (sg_nodes G))
+  else seager true pick G (fuel_of (sg_nodes G)).
 
-Definition eager_obs_ok (g : graph) (brs : list br) (o : robs * exec_log) : bool :=
+Definition eager_obs_ok (G : sgraph) (o : robs * exec_log) : bool :=
+  let a := anc_of G in
   match fst o with
   | RVal v =>
-      match eager_model g brs pick_ok with
-      | (ODone v', log, _) => val_eqb v v' && log_eqb (feeding g (snd o)) (feeding g log)
+      match eager_model G pick_ok with
+      | (ODone v', log, _) => val_eqb v v' && log_eqb (feeding_a a (snd o)) (feeding_a a log)
+      | (OFail, _, _) => has_prefail_nonanc G     (* value runs: compared with each other by the direct
+                                                     oracle and, traced runs, through their own schedule *)
       | _ => false
       end
   | RErr =>
-      match eager_model g brs pick_first with
+      match eager_model G pick_first with
       | (OFail, _, _) => true
-      | (ODone _, _, _) => has_fail_nonanc g
+      | (ODone _, _, _) => has_fail_nonanc G
       | _ => false
       end
   | _ => false
   end.
+
+Definition sg_of (c : ccase) : sgraph := mksg (c_graph c) (c_brs c) (c_ctl c) (c_dat c).
 
 Definition obs_ok (c : ccase) (o : robs * exec_log) : bool :=
   if is_batch c then
@@ -111,7 +131,7 @@ Definition obs_ok (c : ccase) (o : robs * exec_log) : bool :=
     | RErr, OFuel => negb (Nat.eqb (c_steps c) 0) && log_eqb (snd o) log   (* ErrExceedMaxSteps *)
     | _, _ => false
     end
-  else eager_obs_ok (c_graph c) (c_brs c) o.
+  else eager_obs_ok (sg_of c) o.
 
 (* the schedule of a traced run: the order in which its tasks were collected, the tasks it submitted *)
 Fixpoint recv_seq (tr : list ev) : list nid :=
@@ -133,9 +153,9 @@ Definition set_eqb (a b : list nid) : bool :=
 (* eager mode, exact: under the schedule recorded in the trace the model returns the same outcome,
    has started exactly the same executions (all of them, with their inputs) and leaves exactly the
    tasks running that the trace shows as submitted and never collected *)
-Definition eager_run_ok (g : graph) (brs : list br) (r : trun) : bool :=
+Definition eager_run_ok (G : sgraph) (r : trun) : bool :=
   let seq := recv_seq (r_trace r) in
-  let '(out, log, lrun) := eager_model g brs (pick_seq seq) in
+  let '(out, log, lrun) := eager_model G (pick_seq seq) in
   match r_out r, out with
   | RVal v, ODone v' => val_eqb v v'
   | RErr, OFail => true
@@ -169,8 +189,8 @@ Definition trace_ok (c : ccase) (r : trun) : bool :=
   end &&
   (if is_nil (c_graph c) then true
    else if negb (Nat.eqb (c_steps c) 0) then true      (* a node may run twice: task keys are not node keys *)
-   else if is_nil (c_brs c) then conf_ok c r
-   else if is_batch c then true else eager_run_ok (c_graph c) (c_brs c) r).
+   else if plain (sg_of c) then conf_ok c r
+   else if is_batch c then true else eager_run_ok (sg_of c) r).
 
 Definition bad (c : ccase) : bool :=
   negb ((is_nil (c_graph c) || forallb (obs_ok c) (c_obs c)) && forallb (trace_ok c) (c_traces c)).
